@@ -46,7 +46,11 @@ static int16_t cRead(CO_IF_FRM *f) {
     if (rx_mode == 0) return 0;
     *f = rxq; rx_mode = 0; return (int16_t)sizeof(*f);
 }
+static CO_IF_FRM last_tx;     /* last frame the node transmitted (the built-in SDO server of `csrv' answers it) */
+static uint8_t srv_mux[3];    /* multiplexer of the last initiate request the node transmitted as SDO client */
 static int16_t cSend(CO_IF_FRM *f) {
+    last_tx = *f;
+    if (f->Data[0] == 0x40 || (f->Data[0] & 0xE0) == 0x20) memcpy(srv_mux, f->Data + 1, 3);
     if (can_fail > 0) { can_fail--; ITEM("txfail %u", (unsigned)f->Identifier); return -1; }
     if (++tx_count > 4096) { ITEM("txflood"); fflush(stdout); _exit(78); }
     item_begin(); printf("tx %u %u", (unsigned)f->Identifier, f->DLC);
@@ -227,8 +231,21 @@ int16_t COParaDefault(CO_PARA *pg) {
     if (paradef_ret == 0 && para_def[g]) memcpy(pg->Start, para_def[g], pg->Size);
     return (int16_t)paradef_ret;
 }
+/* a request issued from inside the completion callback (armed by `csdo_chain'): kind 1 upload / 2 download */
+static int chain_kind, chain_size, chain_tmt, chain_base, chain_idx, chain_sub;
+static uint32_t srv_size, srv_pos;    /* built-in SDO server (csrv): size of the object it holds, upload position */
+static uint8_t *ubuf[4]; static uint32_t ubuf_len[4];
 static void csdo_cb(CO_CSDO *c, uint16_t idx, uint8_t sub, uint32_t code) {
     item_begin(); printf("cb csdo %d %u %u", (int)(c - node.CSdo), idx, sub); put_le(code, 4);
+    if (chain_kind) {
+        int k = chain_kind; chain_kind = 0;
+        uint32_t n = (uint32_t)chain_size; uint8_t *nb = exact(n);
+        for (uint32_t i = 0; i < n; i++) nb[i] = k == 1 ? 0xCC : (uint8_t)(chain_base + i);
+        CO_ERR e = k == 1 ? COCSdoRequestUpload(c, CO_DEV(chain_idx, chain_sub), nb, n, csdo_cb, (uint32_t)chain_tmt)
+                          : COCSdoRequestDownload(c, CO_DEV(chain_idx, chain_sub), nb, n, csdo_cb, (uint32_t)chain_tmt);
+        if (e) { free(nb); ITEM("chain err %d", (int)e); }
+        else { free(ubuf[0]); ubuf[0] = nb; ubuf_len[0] = n; srv_size = n; srv_pos = 0; ITEM("chain ok"); }
+    }
 }
 
 /* application timers: handle -> id */
@@ -257,7 +274,7 @@ static void pool_item(void) {
 }
 
 /* --------------------------------------------------------------- commands */
-static uint8_t *ubuf[4]; static uint32_t ubuf_len[4];
+
 static void node_init(void) {
     ensure_od();
     od[nod].Key = 0; od[nod].Type = 0; od[nod].Data = 0;
@@ -386,8 +403,37 @@ static int run_cmd(char *op, int *a, int na) {
             CO_ERR e = IS("csdo_up") ? COCSdoRequestUpload(c, CO_DEV(a[1], a[2]), nb, n, csdo_cb, (uint32_t)a[4])
                                      : COCSdoRequestDownload(c, CO_DEV(a[1], a[2]), nb, n, csdo_cb, (uint32_t)a[4]);
             if (e) { free(nb); ITEM("err %d", (int)e); }      /* refused: the buffer of a running transfer stays */
-            else { free(ubuf[s]); ubuf[s] = nb; ubuf_len[s] = n; ITEM("ok"); }
+            else { free(ubuf[s]); ubuf[s] = nb; ubuf_len[s] = n; srv_size = n; srv_pos = 0; ITEM("ok"); }
         }
+    }
+    /* a request to be issued from inside the next completion callback: kind(1 up / 2 down) idx sub size timeout base */
+    else if (IS("csdo_chain")) { chain_kind = a[0]; chain_idx = a[1]; chain_sub = a[2]; chain_size = a[3]; chain_tmt = a[4]; chain_base = na > 5 ? a[5] : 0; }
+    else if (IS("csrv_size")) { srv_size = (uint32_t)a[0]; }
+    /* built-in SDO server: answers the LAST frame the client transmitted.  csrv rxid kind   kind: 0 conforming, 1 abort (matching
+     * multiplexer), 2 wrong toggle, 3 unknown command, 4 announced size + 1, 5 wrong multiplexer, 6 abort with a foreign multiplexer;
+     * object bytes of uploads: byte i = (3 i + 1) mod 256.  The injected frame is printed as item `inj'. */
+    else if (IS("csrv")) {
+        uint8_t *q = last_tx.Data, f[8] = {0}; int kind = a[1]; uint8_t c = q[0];
+        #define SB(i) ((uint8_t)(((i) * 3u + 1u) & 0xFF))
+        if (c == 0x40) {
+            f[1] = q[1]; f[2] = q[2]; f[3] = q[3]; srv_pos = 0;
+            if (srv_size <= 4 && kind != 4) { f[0] = (uint8_t)(0x43 | ((4 - srv_size) << 2)); for (uint32_t i = 0; i < srv_size; i++) f[4 + i] = SB(i); }
+            else { uint32_t z = srv_size + (kind == 4 ? 1 : 0); f[0] = 0x41; f[4] = (uint8_t)z; f[5] = (uint8_t)(z >> 8); f[6] = (uint8_t)(z >> 16); f[7] = (uint8_t)(z >> 24); }
+        } else if ((c & 0xEF) == 0x60) {
+            uint32_t rest = srv_size > srv_pos ? srv_size - srv_pos : 0, k = rest < 7 ? rest : 7;
+            f[0] = (uint8_t)((c & 0x10) | ((7 - k) << 1) | (rest <= 7 ? 1 : 0)); for (uint32_t i = 0; i < k; i++) f[1 + i] = SB(srv_pos + i);
+            srv_pos += k;
+        } else if ((c & 0xE0) == 0x20) { f[0] = 0x60; f[1] = q[1]; f[2] = q[2]; f[3] = q[3]; }
+        else if ((c & 0xE0) == 0x00) { f[0] = (uint8_t)(0x20 | (c & 0x10)); }
+        else { f[0] = 0xE0; }
+        if (kind == 1) { memset(f, 0, 8); f[0] = 0x80; f[1] = srv_mux[0]; f[2] = srv_mux[1]; f[3] = srv_mux[2]; f[6] = 2; f[7] = 6; }
+        if (kind == 2) f[0] ^= 0x10;
+        if (kind == 3) { memset(f, 0, 8); f[0] = 0xE0; }
+        if (kind == 5) { f[1] = 9; f[2] = 9; f[3] = 9; }
+        if (kind == 6) { memset(f, 0, 8); f[0] = 0x80; f[1] = 1; f[2] = 2; f[3] = 3; f[6] = 2; f[7] = 6; }
+        item_begin(); printf("inj"); for (int i = 0; i < 8; i++) printf(" %u", f[i]);
+        memset(&rxq, 0, sizeof rxq); rxq.Identifier = (uint32_t)a[0]; rxq.DLC = 8; memcpy(rxq.Data, f, 8);
+        rx_mode = 1; CONodeProcess(&node);
     }
     else if (IS("csdo_find")) { CO_CSDO *c = COCSdoFind(&node, (uint8_t)a[0]); ITEM("ret %d", c ? 0 : -1); }
     else if (IS("csdo_state")) { ITEM("ret %d", (int)node.CSdo[a[0]].State); }
